@@ -36,6 +36,8 @@ func c04Params(thorough bool) []histParams {
 		{Name: "V40-R100-L200-upstream-sets-cookie", V: 40, R: 100, L: 200, G: 70, Gaps: []int64{20, 60, 120, 220}, Policy: pol, User: carol, Alphabet: "c04", MaxDepth: 12, UpstreamCookie: true},
 		{Name: "V40-R100-L200-long-tokens", V: 40, R: 100, L: 200, G: 70, Gaps: []int64{20, 60, 120, 220}, Policy: pol, User: carol, Alphabet: "c04", MaxDepth: 12, LongTokens: true},
 		// the browser's background request for the site icon, which a handler of its own authenticates and forwards
+		// the sub-request endpoint a front end asks before letting a request through (answers 202 / 401 itself)
+		{Name: "V40-R100-L200-auth-sub-requests", V: 40, R: 100, L: 200, G: 70, Gaps: []int64{20, 60, 120, 220}, Policy: pol, User: carol, Alphabet: "c04", MaxDepth: 12, Path: "/oauth2/auth"},
 		{Name: "V40-R100-L200-favicon-requests", V: 40, R: 100, L: 200, G: 70, Gaps: []int64{20, 60, 120, 220}, Policy: pol, User: carol, Alphabet: "c04", MaxDepth: 12, Path: "/favicon.ico"},
 	}
 	if thorough {
@@ -54,12 +56,15 @@ func c05Params(thorough bool) []histParams {
 		{Name: "G0-V40-R100-L300-grace-off", V: 40, R: 100, L: 300, G: 0, Gaps: []int64{30, 50, 110}, Policy: pol, User: carol, Alphabet: "c05", MaxDepth: 4},
 		{Name: "G70-V40-R100-L300-upstream-sets-cookie", V: 40, R: 100, L: 300, G: 70, Gaps: []int64{30, 50, 80, 110}, Policy: pol, User: carol, Alphabet: "c05", MaxDepth: 4, UpstreamCookie: true},
 		// tokens as long as real signed tokens: the sealed session no longer fits 4096 bytes
-		{Name: "G70-V40-R100-L300-long-tokens", V: 40, R: 100, L: 300, G: 70, Gaps: []int64{30, 50, 80, 110}, Policy: pol, User: carol, Alphabet: "c05", MaxDepth: 4, LongTokens: true}}
+		{Name: "G70-V40-R100-L300-long-tokens", V: 40, R: 100, L: 300, G: 70, Gaps: []int64{30, 50, 80, 110}, Policy: pol, User: carol, Alphabet: "c05", MaxDepth: 4, LongTokens: true},
+		// the sub-request endpoint /oauth2/auth (202 lets the front end's request through)
+		{Name: "G70-V40-R100-L300-auth-sub-requests", V: 40, R: 100, L: 300, G: 70, Gaps: []int64{30, 50, 80, 110}, Policy: pol, User: carol, Alphabet: "c05", MaxDepth: 4, Path: "/oauth2/auth"}}
 	if thorough {
 		ps = []histParams{
 			{Name: "G70-V40-R100-L300", V: 40, R: 100, L: 300, G: 70, Gaps: []int64{30, 50, 80, 110}, Policy: pol, User: carol, Alphabet: "c05", MaxDepth: 40},
 			{Name: "G70-V40-R100-L300-fine", V: 40, R: 100, L: 300, G: 70, Gaps: []int64{10, 50, 80, 110}, Policy: pol, User: carol, Alphabet: "c05", MaxDepth: 6},
 			{Name: "G150-V40-R100-L200", V: 40, R: 100, L: 200, G: 150, Gaps: []int64{30, 50, 110}, Policy: pol, User: carol, Alphabet: "c05", MaxDepth: 40},
+			{Name: "G70-V40-R100-L300-auth-sub-requests", V: 40, R: 100, L: 300, G: 70, Gaps: []int64{30, 50, 80, 110}, Policy: pol, User: carol, Alphabet: "c05", MaxDepth: 6, Path: "/oauth2/auth"},
 		}
 	}
 	return ps
